@@ -542,7 +542,9 @@ class _VersionIndependentUnmarshaller:
             return self.r_ref_insert(ret, i)
 
         co_consts = self.r_object(bytes_for_s=bytes_for_s)
-        co_names = self.r_object(bytes_for_s=bytes_for_s)
+        # Names are text.  PyPy 3.2 writes them as "s" records; read them the
+        # way co_varnames is read below, not as bytes constants.
+        co_names = self.r_object(bytes_for_s=False)
 
         co_varnames = tuple()
         co_freevars = tuple()
@@ -580,11 +582,11 @@ class _VersionIndependentUnmarshaller:
                 co_varnames = tuple()
 
             if self.version_tuple >= (2, 0):
-                co_freevars = self.r_object(bytes_for_s=bytes_for_s)
-                co_cellvars = self.r_object(bytes_for_s=bytes_for_s)
+                co_freevars = self.r_object(bytes_for_s=False)
+                co_cellvars = self.r_object(bytes_for_s=False)
 
-            co_filename = self.r_object(bytes_for_s=bytes_for_s)
-            co_name = self.r_object(bytes_for_s=bytes_for_s)
+            co_filename = self.r_object(bytes_for_s=False)
+            co_name = self.r_object(bytes_for_s=False)
 
         co_exceptiontable = None
         if self.version_tuple >= (1, 5):
